@@ -759,6 +759,20 @@ pub fn ops_only_assignment_mode<F: Field + PrimeField64>(
     perturb_io: bool,
     air_horner: bool,
 ) -> Option<Vec<F>> {
+    ops_only_assignment_full(c, pubs, priv_slots, perturb_io, air_horner, false)
+}
+
+/// As above; with `free_unset` an operand slot that nothing has defined when an op reads it (no
+/// earlier op, no private input) is the adversary's to choose: it receives an arbitrary value and
+/// propagation continues. A later op that defines the slot differently still makes the attempt fail.
+pub fn ops_only_assignment_full<F: Field + PrimeField64>(
+    c: &Circuit<F>,
+    pubs: &[F],
+    priv_slots: &[(u32, F)],
+    perturb_io: bool,
+    air_horner: bool,
+    free_unset: bool,
+) -> Option<Vec<F>> {
     let mut prev_horner_out: Option<WitnessId> = None;
     let n = c.witness_count as usize;
     let mut w: Vec<Option<F>> = vec![None; n];
@@ -791,6 +805,41 @@ pub fn ops_only_assignment_mode<F: Field + PrimeField64>(
             }
             Op::Alu { kind, a, b, c: cc, out, intermediate_out } => {
                 let g = |w: &Vec<Option<F>>, i: WitnessId| w.get(i.0 as usize).copied().flatten();
+                if free_unset {
+                    let mut fill = |w: &mut Vec<Option<F>>, i: WitnessId| {
+                        if let Some(s) = w.get_mut(i.0 as usize)
+                            && s.is_none()
+                        {
+                            *s = Some(F::from_u64(0x5eed + 2 * i.0 as u64 + 1));
+                        }
+                    };
+                    match kind {
+                        AluOpKind::Add | AluOpKind::Mul => {
+                            fill(&mut w, *a);
+                            if g(&w, *b).is_none() && g(&w, *out).is_none() {
+                                fill(&mut w, *b);
+                            }
+                        }
+                        AluOpKind::BoolCheck => {}
+                        AluOpKind::MulAdd => {
+                            fill(&mut w, *a);
+                            fill(&mut w, *b);
+                            if let Some(ci) = cc {
+                                fill(&mut w, *ci);
+                            }
+                        }
+                        AluOpKind::HornerAcc => {
+                            fill(&mut w, *a);
+                            fill(&mut w, *b);
+                            if let Some(ci) = cc {
+                                fill(&mut w, *ci);
+                            }
+                            if let Some(acc) = intermediate_out {
+                                fill(&mut w, *acc);
+                            }
+                        }
+                    }
+                }
                 match kind {
                     AluOpKind::Add | AluOpKind::Mul => {
                         let av = g(&w, *a)?;
